@@ -1,10 +1,18 @@
 use crate::common::Rep;
 
+#[cfg(not(feature = "stateless"))]
+pub mod c01;
+#[cfg(not(feature = "stateless"))]
+pub mod c02;
 pub mod c03;
 pub mod c04;
 pub mod c05;
 pub mod c09;
 pub mod c10;
+#[cfg(not(feature = "stateless"))]
+pub mod c12;
+#[cfg(not(feature = "stateless"))]
+pub mod c13;
 pub mod c14;
 pub mod c19;
 pub mod c20;
@@ -12,6 +20,14 @@ pub mod ctree;
 
 pub fn run(prop: &str, rep: &mut Rep, args: &[String]) -> bool {
     match prop {
+        #[cfg(not(feature = "stateless"))]
+        "C01" => c01::run(rep),
+        #[cfg(not(feature = "stateless"))]
+        "C02" => c02::run(rep),
+        #[cfg(not(feature = "stateless"))]
+        "C12" => c12::run(rep),
+        #[cfg(not(feature = "stateless"))]
+        "C13" => c13::run(rep),
         "C03" => c03::run(rep),
         "C04" => c04::run(rep),
         "C05" => c05::run(rep),
